@@ -56,10 +56,12 @@ def make_inputs(rng, fmt):
         ptx, _ = R.pretext_script(rng, inp, bpt)
         if kind == "tagged":
             ptx = R.decorate_tags(rng, ptx)
-        return {"files": {"in.fa": data, "ptx.agp": R.agp_text(ptx, header=[f"HiC MAP RESOLUTION: {bpt} bp/texel"]).encode()}, "assembly": "in.fa", "out": "xx.1.fa"}
+        out_name = rng.choice(["xx.1.fa", "xx.1.fa", "yy.fasta", "zz.3.FA"])
+        return {"files": {"in.fa": data, "ptx.agp": R.agp_text(ptx, header=[f"HiC MAP RESOLUTION: {bpt} bp/texel"]).encode()}, "assembly": "in.fa", "out": out_name,
+                "case": {"input": inp, "ptx": ptx, "bpt": bpt}}
     c = R.make_case(rng, kind)
     return {"files": {"in.agp": R.agp_text(c["input"]).encode(), "ptx.agp": R.agp_text(c["ptx"], header=[f"HiC MAP RESOLUTION: {c['bpt']} bp/texel"]).encode()},
-            "assembly": "in.agp", "out": "xx.1." + fmt}
+            "assembly": "in.agp", "out": rng.choice(["xx.1." + fmt, "xx.1." + fmt, "yy." + fmt, "a.b.7." + fmt.upper(), "xx.2." + fmt + "_v2"]), "case": c}
 
 
 def run_cli(d, cfg, clobber, write_log):
@@ -122,6 +124,17 @@ def check_config(ctx, sc, tag, cfg, write_log, subsets_budget):
         return
     if any("x" in m for n, m in opens0):
         out.oracle_fail("baseline", dict(base, opens=opens0), "a file was opened with exclusive mode under --clobber")
+    # the output PLAN of the model (Model/CliPlan.lean: which files, under which names, in which order) for the assemblies the real
+    # in-process remap returns, against the opens observed in the real run
+    if ctx.driver and cfg.get("case"):
+        c = cfg["case"]
+        real = R.real_remap(c["input"], c["ptx"], c["bpt"])
+        if "ok" in real:
+            req = {"id": 0, "kind": "cliplan", "assemblies": [{"key": a["key"], "curated": a["curated"], "scaffolds": a["scaffolds"]} for a in real["ok"]["assemblies"]],
+                   "out": cfg["out"], "write_log": write_log, "prefix": "SUPER_", "stats": real["ok"]["stats"]}
+            m = ctx.driver.batch([req])[0]
+            inp = dict(base, out=cfg["out"], assemblies=[[a["key"], a["curated"], len(a["scaffolds"])] for a in real["ok"]["assemblies"]])
+            out.compare("output-plan", inp, {"ok": order}, m["plan"], ("plan", base["format"], write_log, len(order)))
     # history: a second run IN THE SAME PROCESS and the same directory, where the pre-existing files are the ones the first run
     # wrote (state carried from one invocation to the next must not matter): --no-clobber with everything present, then with the log
     # file removed (so that the collision is found by get_output_filehandle, not by setup_logging), then without --write-log
@@ -178,8 +191,9 @@ def check_config(ctx, sc, tag, cfg, write_log, subsets_budget):
             reqs.append({"id": 0, "kind": "outputs", "clobber": clobber, "existing": S, "outputs": order})
             meta.append((inp, real, sig))
             text = (res.output or "") + (res.stderr if getattr(res, "stderr_bytes", None) else "")
-            logf = d / "xx.1.log"
-            if logf.exists() and after.get("xx.1.log") != sentinel("xx.1.log"):
+            logn = str(Path(cfg["out"]).with_suffix(".log"))
+            logf = d / logn
+            if logf.exists() and after.get(logn) != sentinel(logn):
                 text += logf.read_text(errors="replace")
             if not clobber:
                 if res.exit_code == 0:
@@ -212,8 +226,57 @@ def check_config(ctx, sc, tag, cfg, write_log, subsets_budget):
             out.case("subsets", inp, sig)
 
 
+TRICKY_NAMES = ["x.2.fa", "x.fa", "x.FA", "x.1.fab", "x.agp", "x.2.tpf", "x.agp.fa", "x.fa.agp", "a.b.3.fa_x", "x", ".fa", "..fa", "x.12.Fasta", "x.log.fa",
+                "x.info.yaml.agp", "x.chr_report.csv.tpf", "x.1.primary.curated.fa", "x.tpf.gz", "x.", "x..", ".x", "x.1.", "x.01.agp", "x.1.2.agp", "x.-1.agp", "x.1a.agp",
+                "x.agp1", "x.Agp_", "x.fas", "x.fast", "x.fasta9", "x.fa-", "x.f", "1.agp", ".1.agp", "x.1.AGP", "x y.2.tpf", "x.tpf.1"]
+
+
+def path_parse_stream(ctx):
+    """pathlib name arithmetic, format_from_file_extn and parse_output_file: real functions vs Model/CliPlan.lean on file NAMES (ASCII, no '/')"""
+    from tola.assembly.scripts.pretext_to_asm import parse_output_file
+    from tola.assembly.parser import format_from_file_extn
+    rng = ctx.rng
+    names = list(TRICKY_NAMES)
+    alpha = [".", ".", "a", "A", "1", "0", "_", "f", "g", "p", "t", "s", "-"]
+    # exhaustive short names over a small alphabet + random longer ones
+    small = [".", "a", "1", "f"]
+    for n in range(1, 5):
+        for t in itertools.product(small, repeat=n):
+            names.append("".join(t))
+    for _ in range(600 if ctx.thorough else 150):
+        stem = "".join(rng.choice(alpha) for _ in range(rng.randint(0, 6)))
+        ext = rng.choice(["agp", "tpf", "fa", "fasta", "AGP", "Tpf", "FA", "fAsTa", "fab", "agp2", "tpf_", "txt", "", "fa_1"])
+        ver = rng.choice(["", "", ".1", ".12", ".007", ".1a", "."])
+        names.append(stem + ver + ("." + ext if ext or rng.random() < 0.5 else ""))
+    names = [n for n in dict.fromkeys(names) if n and "/" not in n]
+    ms = ctx.driver.batch([{"id": 0, "kind": "pathparse", "names": names}])[0] if ctx.driver else [None] * len(names)
+
+    def R_(f):
+        try:
+            return {"ok": f()}
+        except Exception as e:
+            return {"err": conv.errkind(e)}
+    for n, m in zip(names, ms):
+        p = Path(n)
+        if p.name != n:            # pathlib normalises "." etc.: not a file name
+            continue
+        fmt = format_from_file_extn(p)
+        def po():
+            r = parse_output_file(p)
+            return [r[0], r[2], r[3], r[4]]
+        real = {"suffix": p.suffix, "stem": p.stem, "fmt": fmt, "parse": R_(po), "log": R_(lambda: p.with_suffix(".log").name),
+                "yaml": R_(lambda: p.with_name(p.stem + ".info.yaml").name), "report": R_(lambda: p.with_suffix(".chr_report.csv").name),
+                "agp": R_(lambda: p.with_suffix(".agp").name)}
+        key = ("pathparse", fmt, "err" in real["parse"], min(len(n), 6))
+        if m is not None:
+            ctx.out.compare("path-parse", {"name": n}, real, m, key)
+        else:
+            ctx.out.case("path-parse", {"name": n}, key)
+
+
 def run(ctx):
     install_hook()
+    path_parse_stream(ctx)
     tag = itertools.count()
     nconf = 6 if ctx.thorough else 2
     with F.Scratch() as sc:
